@@ -211,7 +211,8 @@ def build_input(seed: int, opts: dict):
     rng = random.Random(seed)
     case = gen_ref.Case(gen_ref.work_dir('cv'))
     with gen_ref.quiet():
-        gen_ref.make_reference(case, seed, 1, sec_near_start=opts.get('sec_near_start', 0.25))
+        gen_ref.make_reference(case, seed, 1, sec_near_start=opts.get('sec_near_start', 0.25),
+                               context=opts.get('context', 0.3))
         genome, anno, _ = gen_ref.load_reference(case)
         recs = []
         if opts.get('coding_only') and not any(m.is_protein_coding for m in anno.transcripts.values()):
@@ -225,6 +226,15 @@ def build_input(seed: int, opts: dict):
                                            snv_frac=opts.get('snv_frac', 0.55),
                                            window=opts.get('window', 40),
                                            special=special)
+        for (ptx, ppos, palt, _motif) in case.meta.get('planted_context', []):
+            # the SNV that flips the planted cleavage context (+ sometimes nothing else near it)
+            try:
+                rec = gen_ref.make_snv(anno, genome, ptx, ppos, palt)
+            except Exception:   # noqa
+                rec = None
+            if rec is not None and rec.id not in {r.id for r in recs}:
+                recs.append(rec)
+                case.meta['context_snv'] = case.meta.get('context_snv', 0) + 1
         if opts.get('as_frac', 0) > 0:
             import random as _r
             from moPepGen import fake
@@ -294,6 +304,8 @@ def cv_worker(job):
         if tx['sec']:
             out['stats']['selenoprotein'] = 1
         out['stats'][f'nvars_{min(len(tx["vars"]), 9)}'] = 1
+        if case.meta.get('context_snv'):
+            out['stats']['planted_cleavage_context_snv'] = 1
         if any(isinstance(v[5], tuple) for v in tx['vars']):
             out['stats']['with_nested_in_splicing_insertion'] = 1
         out['stats'][f'enzyme_{kw["cleavage_rule"]}'] = 1
